@@ -55,7 +55,97 @@ func guarded(f func()) (panicked string, hung bool) {
 	}
 }
 
-func allocBound(n int) uint64 { return uint64(512*n + 32*1024) }
+// ptrOctets counts the octets that can begin a compression pointer (both top bits set). It is
+// computed from the input alone and is an upper bound for the number of pointers a decoder meets
+// while it walks the input once.
+func ptrOctets(in []byte) int {
+	n := 0
+	for _, b := range in {
+		if b&0xC0 == 0xC0 {
+			n++
+		}
+	}
+	return n
+}
+
+// allocBound: 512 bytes per input octet, 32 KiB flat, and 1536 bytes more per octet that can begin a
+// compression pointer. A pointer is the one legitimate amplifier of the format: two octets stand
+// for a name of up to 255 octets, whose presentation form - the library hands names out as text -
+// is up to 1009 characters when the labels hold non-printing octets (\DDD). Measured on the
+// unchanged tree: a HIP record whose RDATA is 32000 pointers to a 255-octet name costs 168 B per
+// input octet when the labels are letters and 550 B per input octet when they are NUL octets
+// (1024-byte string + list growth per pointer), i.e. 1104 B per pointer; the bound allows
+// 2*512+1536 = 2560 B per pointer. It remains a fixed multiple of the input length (at most
+// 2048 x len + 32 KiB), and stays at 512 x len for input without pointer octets.
+func allocBound(in []byte) uint64 { return uint64(512*len(in) + 1536*ptrOctets(in) + 32*1024) }
+
+// timeBound: 30 ms + 3 us per input octet, for the cheapest of five decodings (see decodeCost). No
+// term for pointers is needed: the most expensive legitimate input of 65534 octets - 32 K pointers
+// to a 255-octet name of non-printing octets, 36 MB of text - costs 35-50 ms of processor time at a
+// load average of 400, against 226 ms.
+func timeBound(in []byte) time.Duration {
+	return 30*time.Millisecond + time.Duration(len(in))*3*time.Microsecond
+}
+
+// decodeCost is the cost of one Msg.Unpack of the input: the processor time of the thread that ran
+// it where the system tells (Linux), the elapsed time otherwise - whichever is smaller. Processor
+// time does not grow when the machine is busy with other things (a goroutine that is not scheduled
+// for 100 ms has not worked for 100 ms), while a decoder that loops or re-scans burns it like any
+// other; so the oracle decides about the work of the decoder, not about the speed of the machine.
+func decodeCost(in []byte) time.Duration {
+	done := make(chan time.Duration, 1)
+	go func() {
+		runtime.LockOSThread()
+		defer runtime.UnlockOSThread()
+		d := time.Duration(1 << 62)
+		defer func() {
+			if recover() != nil {
+				d = 0 // (a panic is reported by the first call, not as slowness)
+			}
+			done <- d
+		}()
+		var mm dns.Msg
+		c0, ok0 := threadCPU()
+		t0 := time.Now()
+		mm.Unpack(in)
+		wall := time.Since(t0)
+		c1, ok1 := threadCPU()
+		d = wall
+		if ok0 && ok1 && c1-c0 < wall {
+			d = c1 - c0
+		}
+	}()
+	select {
+	case d := <-done:
+		return d
+	case <-time.After(watchdog):
+		return time.Duration(1 << 62)
+	}
+}
+
+// msgText prints a message record by record (linear in the number of records, unlike Msg.String,
+// which concatenates): used to compare the content of two Msg values.
+func msgText(m *dns.Msg) string {
+	var b strings.Builder
+	b.WriteString(m.MsgHdr.String())
+	fmt.Fprintf(&b, "\nQ %d AN %d NS %d AR %d\n", len(m.Question), len(m.Answer), len(m.Ns), len(m.Extra))
+	for _, q := range m.Question {
+		b.WriteString(q.String())
+		b.WriteByte('\n')
+	}
+	for _, sec := range [][]dns.RR{m.Answer, m.Ns, m.Extra} {
+		b.WriteString("--\n")
+		for _, rr := range sec {
+			if rr == nil {
+				b.WriteString("<nil>\n")
+				continue
+			}
+			b.WriteString(rr.String())
+			b.WriteByte('\n')
+		}
+	}
+	return b.String()
+}
 
 var memBefore, memAfter runtime.MemStats
 
@@ -66,6 +156,28 @@ func measured(f func()) (alloc uint64, panicked string, hung bool) {
 	panicked, hung = guarded(f)
 	runtime.ReadMemStats(&memAfter)
 	return memAfter.TotalAlloc - memBefore.TotalAlloc, panicked, hung
+}
+
+// confirmAlloc guards the allocation oracle against noise. TotalAlloc is a counter of the whole
+// process: a timer, a finaliser or a goroutine left over from an earlier case that allocates
+// during the call lands in the difference, and on a very busy machine that happens. What a
+// decoder allocates for a given input is a deterministic function of the input, so an excess is
+// only reported when it shows in every one of up to four further measurements of the same
+// decoding (fresh destination, collector run first); the smallest measurement counts.
+func confirmAlloc(first, bound uint64, again func()) uint64 {
+	best := first
+	for i := 0; i < 4 && best > bound; i++ {
+		pbt.Class("bound-rechecked")
+		runtime.GC()
+		a, p, hung := measured(again)
+		if p != "" || hung {
+			break
+		}
+		if a < best {
+			best = a
+		}
+	}
+	return best
 }
 
 func validName(s string) error {
@@ -132,7 +244,13 @@ func postProcess(m *dns.Msg, print bool) (string, bool) {
 		m.Compress = !m.Compress
 		_, _ = m.Pack()
 		if print {
-			_ = c.String()
+			// (Msg.String is quadratic in the number of records; with hundreds of them the copy is
+			// printed record by record - the original went through Msg.String above)
+			if len(c.Answer)+len(c.Ns)+len(c.Extra)+len(c.Question) <= 300 {
+				_ = c.String()
+			} else {
+				_ = msgText(c)
+			}
 		}
 		c.Truncate(512)
 		_, _ = c.Pack()
@@ -167,8 +285,11 @@ func checkMsg(c wireCase) error {
 	if p != "" {
 		return pbt.Errf("Msg.Unpack panicked on %d octets: %s", len(in), p)
 	}
-	if alloc > allocBound(len(in)) {
-		return pbt.Errf("Msg.Unpack allocated %d bytes for %d input octets (bound %d)", alloc, len(in), allocBound(len(in)))
+	if alloc > allocBound(in) {
+		alloc = confirmAlloc(alloc, allocBound(in), func() { var mm dns.Msg; mm.Unpack(buf) })
+	}
+	if alloc > allocBound(in) {
+		return pbt.Errf("Msg.Unpack allocated %d bytes for %d input octets (bound %d; the smallest of five measurements)", alloc, len(in), allocBound(in))
 	}
 	if !bytes.Equal(buf, in) {
 		return pbt.Errf("Msg.Unpack modified its input buffer")
@@ -177,13 +298,13 @@ func checkMsg(c wireCase) error {
 	// the input length; the fastest of up to five attempts counts, so that a busy machine cannot
 	// make a linear decoder look slow
 	if len(in) >= 4096 {
-		bound := 30*time.Millisecond + time.Duration(len(in))*3*time.Microsecond
+		bound := timeBound(in)
 		best := time.Duration(1 << 62)
 		for i := 0; i < 5 && best > bound; i++ {
-			var mm dns.Msg
-			t0 := time.Now()
-			guarded(func() { mm.Unpack(in) })
-			if d := time.Since(t0); d < best {
+			if i > 0 {
+				pbt.Class("bound-rechecked")
+			}
+			if d := decodeCost(in); d < best {
 				best = d
 			}
 		}
@@ -202,7 +323,7 @@ func checkMsg(c wireCase) error {
 	}
 	if err == nil && !c.Huge {
 		var s1, s2 string
-		if p3, h3 := guarded(func() { s1, s2 = m.String(), used.String() }); p3 == "" && !h3 && s1 != s2 {
+		if p3, h3 := guarded(func() { s1, s2 = msgText(&m), msgText(used) }); p3 == "" && !h3 && s1 != s2 {
 			return pbt.Errf("Msg.Unpack of %d octets into a Msg that held another message leaves stale content behind:\n%s\n-- instead of --\n%s", len(in), clip(s2), clip(s1))
 		}
 	}
@@ -272,15 +393,22 @@ func checkRR(c wireCase) error {
 	var err error
 	var noff int
 	alloc, p, hung := measured(func() { rr, noff, err = dns.UnpackRR(in, off) })
-	pbt.Note(append([]byte{byte(off)}, in...), c.Valid || err == nil, "kind:"+c.Kind)
+	stage := "accepted"
+	if err != nil {
+		stage = "rejected"
+	}
+	pbt.Note(append([]byte{byte(off)}, in...), c.Valid || err == nil, "kind:"+c.Kind, stage)
 	if hung {
 		return pbt.NoShrink{Err: pbt.Errf("UnpackRR(%d octets, off %d) did not return within %v", len(in), off, watchdog)}
 	}
 	if p != "" {
 		return pbt.Errf("UnpackRR(%d octets, off %d) panicked: %s", len(in), off, p)
 	}
-	if alloc > allocBound(len(in)) {
-		return pbt.Errf("UnpackRR allocated %d bytes for %d input octets", alloc, len(in))
+	if alloc > allocBound(in) {
+		alloc = confirmAlloc(alloc, allocBound(in), func() { dns.UnpackRR(in, off) })
+	}
+	if alloc > allocBound(in) {
+		return pbt.Errf("UnpackRR allocated %d bytes for %d input octets (bound %d; the smallest of five measurements)", alloc, len(in), allocBound(in))
 	}
 	if err == nil {
 		if noff < off || noff > len(in) {
@@ -294,7 +422,9 @@ func checkRR(c wireCase) error {
 				}
 			}
 			if p, hung := guarded(func() {
-				_ = rr.String()
+				if !c.Huge {
+					_ = rr.String()
+				}
 				_ = dns.Len(rr)
 				_ = dns.Copy(rr)
 				b := make([]byte, 70000)
@@ -368,8 +498,11 @@ func checkName(c wireCase) error {
 	if p != "" {
 		return pbt.Errf("UnpackDomainName(%d octets, off %d) panicked: %s", len(in), off, p)
 	}
-	if alloc > allocBound(len(in)) {
-		return pbt.Errf("UnpackDomainName allocated %d bytes for %d input octets", alloc, len(in))
+	if alloc > allocBound(in) {
+		alloc = confirmAlloc(alloc, allocBound(in), func() { dns.UnpackDomainName(in, off) })
+	}
+	if alloc > allocBound(in) {
+		return pbt.Errf("UnpackDomainName allocated %d bytes for %d input octets (bound %d; the smallest of five measurements)", alloc, len(in), allocBound(in))
 	}
 	if err != nil {
 		return nil
@@ -987,8 +1120,11 @@ func checkWithHeader(c hdrCase) error {
 	if p != "" {
 		return pbt.Errf("UnpackRRWithHeader(%s, rdlength %d, %d octets at %d) panicked: %s", typeName(c.Type), c.Rdlength, len(c.Msg), off, p)
 	}
-	if alloc > allocBound(len(c.Msg)) {
-		return pbt.Errf("UnpackRRWithHeader allocated %d bytes for %d octets", alloc, len(c.Msg))
+	if alloc > allocBound(c.Msg) {
+		alloc = confirmAlloc(alloc, allocBound(c.Msg), func() { dns.UnpackRRWithHeader(h, c.Msg, off) })
+	}
+	if alloc > allocBound(c.Msg) {
+		return pbt.Errf("UnpackRRWithHeader allocated %d bytes for %d octets (bound %d; the smallest of five measurements)", alloc, len(c.Msg), allocBound(c.Msg))
 	}
 	if err != nil {
 		return nil
